@@ -175,6 +175,37 @@ def pick_repr(rng, key):
     return rng.choice(REPRS_FOR.get(key, [None]))
 
 
+def rebuild_params(p, rng):
+    """Equal-valued parameter set built along another route (add with the
+    final value / add with another value then assign .value / .set()), so
+    that history-dependent attributes (init_value, stderr, correl,
+    user_data) differ while value, min, max, vary, expr are equal."""
+    import lmfit
+    q = lmfit.Parameters()
+    for n, par in p.items():
+        if par.expr is not None:
+            q.add(n, expr=par.expr)
+            continue
+        route = rng.choice(["add", "assign", "set"])
+        if route == "add":
+            q.add(n, value=par.value, min=par.min, max=par.max,
+                  vary=par.vary)
+            continue
+        tmp = float(par.value)
+        for cand in (par.min, par.max, tmp * 0.5, tmp + 1.0, 0.0):
+            if np.isfinite(cand) and par.min <= cand <= par.max \
+                    and cand != tmp:
+                tmp = float(cand)
+                break
+        q.add(n, value=tmp, min=par.min, max=par.max, vary=not par.vary)
+        if route == "assign":
+            q[n].value = par.value
+            q[n].vary = par.vary
+        else:
+            q[n].set(value=par.value, vary=par.vary)
+    return q
+
+
 def default_params(model_key):
     from nanite import model
     return model.models_available[model_key].get_parameter_defaults()
@@ -292,6 +323,8 @@ class HashWalkEngine:
                             "options": gen_options(rng, steps) or {}})
             elif k == "model_key":
                 ops.append({"op": "model", "model": rng.choice(MODELS)})
+            elif rng.random() < 0.35:
+                ops.append({"op": "reuse_fitted"})
             else:
                 ops.append({"op": "fit"})
         xproc = (index % 20 == 7)
@@ -416,6 +449,19 @@ class HashWalkEngine:
                         live.fit_properties["model_key"] = op["model"]
                         live.fit_properties["params_initial"] = \
                             default_params(op["model"])
+                    elif kind == "reuse_fitted":
+                        # fitted parameters (carrying stderr, correl,
+                        # init_value of the fit) become the initial ones
+                        try:
+                            live.fit_model()
+                        except _caught():
+                            continue
+                        pf_ = live.fit_properties.get("params_fitted")
+                        if pf_ is None:
+                            continue
+                        live.fit_properties["params_initial"] = \
+                            copy.deepcopy(pf_)
+                        special = True
                     elif kind == "fit":
                         try:
                             live.fit_model()
@@ -538,8 +584,12 @@ class HashWalkEngine:
             # change resets the parameters, by design)
             f.fit_properties["model_key"] = fp.get("model_key",
                                                    FP_DEFAULT["model_key"])
-            f.fit_properties["params_initial"] = copy.deepcopy(
-                fp["params_initial"])
+            if rng.random() < 0.6:
+                f.fit_properties["params_initial"] = rebuild_params(
+                    fp["params_initial"], rng)
+            else:
+                f.fit_properties["params_initial"] = copy.deepcopy(
+                    fp["params_initial"])
             keys = [k for k in SETTING_KEYS if k in fp
                     and k not in ("model_key", "params_initial")]
             rng.shuffle(keys)
